@@ -171,6 +171,9 @@ fn real_main() {
 			"C05" => {
 				engines::stream::run(&mut out, &mut rng.fork(), thorough);
 				props::c05::run(&mut out, &mut rng.fork(), thorough);
+				// the re-encoder model the K10 theorems are about (after the
+				// others so that their generated cases keep their seeds)
+				engines::encoding::run(&mut out, &mut rng.fork(), thorough);
 			}
 			"C17" => {
 				// guards: read_handler / ChunkReader::read vs the model, incl. over-reports
